@@ -211,6 +211,8 @@ theorem pushNone_takeRest : ∀ (b : B) (b' : B), pushNone b = .ok b' → takeRe
     simp [takeRest, setValidity_skel h1, pushDefaultKAll_takeRest fs 1 fs' h3]
   | .dictionary p idx vals index, b', h => by
     simp only [pushNone, ctx_ok] at h
+    split at h
+    · simp [fail] at h
     obtain ⟨idx', h1, h2⟩ := (bind_ok _ _ _).1 h
     cases h2
     simp [takeRest, pushNone_takeRest idx idx' ((ctx_ok _ _ _).1 h1)]
